@@ -55,16 +55,25 @@ def build_go(race=False):
     """(Re)build translator and harness from the current trees. Go's build cache makes this cheap."""
     os.makedirs(os.path.join(WORK, "bin"), exist_ok=True)
     shutil.copyfile(os.path.join(REPO, "go.sum"), os.path.join(HARNESS, "go.sum"))
-    rc, out = sh(["go", "build", "-o", os.path.join(WORK, "bin", "extract"), "./extract"], cwd=HARNESS, env=GOENV)
+    mod = []
+    if REPO != "/repo":
+        # VERIF_REPO: the harness module is built against another checkout of the repository (scratch copies used
+        # by background runs; the registered checks always use /repo)
+        alt = os.path.join(WORK, "alt.mod")
+        txt = open(os.path.join(HARNESS, "go.mod")).read().replace("=> /repo", "=> " + REPO)
+        open(alt, "w").write(txt)
+        shutil.copyfile(os.path.join(REPO, "go.sum"), os.path.join(WORK, "alt.sum"))
+        mod = ["-modfile=" + alt]
+    rc, out = sh(["go", "build"] + mod + ["-o", os.path.join(WORK, "bin", "extract"), "./extract"], cwd=HARNESS, env=GOENV)
     if rc != 0:
         return False, "translator build failed:\n" + out
-    rc, out = sh(["go", "build", "-tags", "verif", "-o", os.path.join(WORK, "bin", "iclh"), "./iclh"], cwd=HARNESS, env=GOENV)
+    rc, out = sh(["go", "build"] + mod + ["-tags", "verif", "-o", os.path.join(WORK, "bin", "iclh"), "./iclh"], cwd=HARNESS, env=GOENV)
     if rc != 0:
         return False, "harness build against /repo (tag verif) failed:\n" + out
     racebin = os.path.join(WORK, "bin", "iclh-race")
     if race:
         # the same harness with the race detector (C12's concurrent load; a search aid, needs cgo)
-        rc, out = sh(["go", "build", "-race", "-tags", "verif", "-o", racebin, "./iclh"], cwd=HARNESS, env=dict(GOENV, CGO_ENABLED="1"))
+        rc, out = sh(["go", "build"] + mod + ["-race", "-tags", "verif", "-o", racebin, "./iclh"], cwd=HARNESS, env=dict(GOENV, CGO_ENABLED="1"))
         if rc != 0 and os.path.exists(racebin):
             os.remove(racebin)
     return True, ""
